@@ -1,1 +1,5 @@
 pub mod c05;
+pub mod c06;
+pub mod c07;
+pub mod c09;
+pub mod c19;
